@@ -59,6 +59,11 @@ def base_cells():
         _cell("needle", np.array([[2.6, 0, 0], [0.3, 2.9, 0], [0.2, 0.4, 11.5]]), [[0, 0, 0], [0.5, 0.4, 0.31]], [5, 7]),
         _cell("flat", np.array([[7.9, 0, 0], [3.1, 8.3, 0], [0.4, 0.2, 2.5]]), [[0, 0, 0], [0.35, 0.62, 0.4]], [5, 7]),
         _cell("skew_unreduced", np.array([[3.0, 0, 0], [9.1, 3.2, 0], [6.2, 6.6, 3.4]]), [[0, 0, 0], [0.45, 0.3, 0.6]], [5, 5]),
+        # all three angles obtuse: a+b+c is a short body diagonal, interatomic distances exceed half of it
+        # cyclic point groups 4 and 3 with atoms off the axis (sigma(g) is not symmetric: g and g^-1 act differently)
+        _cell("p4_general", np.diag([4.0, 4.0, 5.1]), [[0.13, 0.27, 0.1], [-0.27, 0.13, 0.1], [-0.13, -0.27, 0.1], [0.27, -0.13, 0.1], [0, 0, 0.5]], [5, 5, 5, 5, 7]),
+        _cell("p3_general", [[4.2, 0, 0], [-2.1, 2.1 * s3, 0], [0, 0, 5.0]], [[0.12, 0.31, 0.07], [-0.31, -0.19, 0.07], [0.19, -0.12, 0.07], [0, 0, 0.4]], [5, 5, 5, 7]),
+        _cell("tri2_obtuse", lattice_from_params(3.3, 3.8, 4.4, 108, 104, 112), [[0.04, 0.1, 0.02], [0.47, 0.58, 0.55]], [5, 7]),
     ]
     return {c["name"]: c for c in cells}
 
